@@ -446,6 +446,11 @@ func (rr *RRSIG) Verify(k *DNSKEY, rrset []RR) error {
 			return ErrKey
 		}
 
+		// The signature is r | s, each as wide as the curve (RFC 6605, section 4)
+		if len(sigbuf) != 2*((pubkey.Curve.Params().BitSize+7)/8) {
+			return ErrSig
+		}
+
 		// Split sigbuf into the r and s coordinates
 		r := new(big.Int).SetBytes(sigbuf[:len(sigbuf)/2])
 		s := new(big.Int).SetBytes(sigbuf[len(sigbuf)/2:])
